@@ -29,6 +29,10 @@ type DocCfg struct {
 	Scalars   uint32   // allowed scalar kinds (KNil|KBool|KFloat|KString|KNumber|opaque bits)
 	RootKinds uint32   // optional: restrict the root's kinds (0 = no restriction)
 	MinLen    int
+	// NumOverflow lets a json.Number leaf spell a number outside the float64
+	// range (such as 1e400, which a UseNumber decoder accepts): its value is
+	// then +Inf or -Inf and Number.Float64 reports a range error.
+	NumOverflow bool
 	// Optional per-level narrowing, indexed by the node's remaining depth
 	// (index 1 = deepest containers). Missing entries fall back to Keys/MaxLen.
 	KeysAt   map[int][]string
@@ -244,7 +248,11 @@ func (s *State) materialise(n *DocNode, a docAlt) Iface {
 		id := p.Var(n.Name+"!n", SortInt)
 		nv := w.numVal(id)
 		s.assume(p.Not(p.App("fp.isNaN", SortBool, nv)))
-		s.assume(p.Not(p.App("fp.isInfinite", SortBool, nv)))
+		if n.Cfg.NumOverflow {
+			s.NumOverflow = true
+		} else {
+			s.assume(p.Not(p.App("fp.isInfinite", SortBool, nv)))
+		}
 		return Iface{T: w.P.tNumber, V: &AbsStr{Id: id}}
 	case KMap:
 		md := &MapData{M: map[string]*MapEntry{}}
